@@ -314,3 +314,119 @@ func FamForeign(seed int64) WireRecord {
 }
 
 var _ = rpc.GetRemoteID
+
+// ---- C08: the same traffic framed three ways: message API, stream with one envelope per frame, stream with a
+// request and a response sharing one envelope.  Nothing may depend on the framing. ----
+func FamFraming(seed int64, variant int) SysRecord {
+	cfg := []string{"json-raw/message", "json-raw/stream-split-envelopes", "json-raw/stream-combined-envelope"}[variant]
+	rec := SysRecord{Family: "framing", Config: cfg, Seed: seed}
+	w := newWorld()
+	node := NewSysNode[json.RawMessage](w, "A")
+	c := jsonRawCodec()
+	ctx, cancel := context.WithCancel(context.Background())
+	defer cancel()
+	errc := make(chan error, 1)
+	reqOut, resOut := make(chan string, 16), make(chan string, 16) // what A writes
+	var sendReq, sendRes func(req, res string)                     // how the peer sends (either may be "")
+	if variant == 0 {
+		reqIn, resIn := newFrameQ[json.RawMessage](), newFrameQ[json.RawMessage]()
+		go func() {
+			errc <- node.Reg.LinkMessage(ctx, func(b json.RawMessage) error { reqOut <- string(b); return nil },
+				func(b json.RawMessage) error { resOut <- string(b); return nil }, reqIn.Get, resIn.Get, c.Marshal, c.Unmarshal, nil)
+		}()
+		sendReq = func(req, res string) {
+			if res != "" {
+				resIn.Put(json.RawMessage(res))
+			}
+			if req != "" {
+				reqIn.Put(json.RawMessage(req))
+			}
+		}
+		defer func() { reqIn.Close(errors.New("closed")); resIn.Close(errors.New("closed")) }()
+	} else {
+		in := newChunkPipe(-1, seed)
+		enc := func(v rpc.Message[json.RawMessage]) error {
+			if v.Request != nil {
+				reqOut <- string(*v.Request)
+			}
+			if v.Response != nil {
+				resOut <- string(*v.Response)
+			}
+			return nil
+		}
+		go func() { errc <- node.Reg.LinkStream(ctx, enc, c.NewDecoder(in), c.Marshal, c.Unmarshal, nil) }()
+		sendReq = func(req, res string) {
+			switch {
+			case req != "" && res != "" && variant == 2:
+				in.Write([]byte(fmt.Sprintf(`{"request":%s,"response":%s}`, req, res)))
+			case req != "" && res != "":
+				in.Write([]byte(fmt.Sprintf(`{"request":null,"response":%s}`, res)))
+				in.Write([]byte(fmt.Sprintf(`{"request":%s,"response":null}`, req)))
+			case req != "":
+				in.Write([]byte(fmt.Sprintf(`{"request":%s,"response":null}`, req)))
+			default:
+				in.Write([]byte(fmt.Sprintf(`{"request":null,"response":%s}`, res)))
+			}
+		}
+		defer in.Close(errors.New("closed"))
+	}
+	_ = sendRes
+	if !WaitRemotes(node, 1) {
+		rec.Notes = append(rec.Notes, "link did not come up")
+		return rec
+	}
+	var rem sysRemote
+	for _, x := range node.Remotes() {
+		rem = x
+	}
+	answer := func(tag int, what string) {
+		select {
+		case f := <-resOut:
+			var d map[string]any
+			json.Unmarshal([]byte(f), &d)
+			rec.Calls = append(rec.Calls, SysCall{Tag: tag, From: "P", Method: what, Ret: canon(d["value"]), Err: fmt.Sprint(d["err"]), Done: true})
+		case <-time.After(3 * time.Second):
+			rec.Calls = append(rec.Calls, SysCall{Tag: tag, From: "P", Method: what, Err: "NO-ANSWER"})
+		}
+	}
+	// 1. the peer calls A
+	sendReq(`{"call":"r1","function":"EchoInt","args":[771,5]}`, "")
+	answer(771, "PeerRequest1")
+	// 2. A calls the peer
+	done := make(chan SysCall, 1)
+	go func() {
+		cctx, ccancel := context.WithTimeout(ctx, 3*time.Second)
+		defer ccancel()
+		v, err := rem.EchoStr(cctx, 772, "x")
+		done <- SysCall{Tag: 772, From: "A", Method: "NodeCall", Ret: canon(v), Err: errText(err), Done: true}
+	}()
+	var callID string
+	select {
+	case f := <-reqOut:
+		var q struct {
+			Call string `json:"call"`
+		}
+		json.Unmarshal([]byte(f), &q)
+		callID = q.Call
+	case <-time.After(3 * time.Second):
+		rec.Notes = append(rec.Notes, "A's request was not written")
+	}
+	// 3. the peer answers it and calls A again - in one go
+	sendReq(`{"call":"r2","function":"Zero","args":[]}`, fmt.Sprintf(`{"call":%q,"value":"x","err":""}`, callID))
+	select {
+	case cl := <-done:
+		rec.Calls = append(rec.Calls, cl)
+	case <-time.After(4 * time.Second):
+		rec.Calls = append(rec.Calls, SysCall{Tag: 772, From: "A", Method: "NodeCall", Err: "DID-NOT-RETURN"})
+	}
+	answer(773, "PeerRequest2")
+	cancel()
+	select {
+	case <-errc:
+	case <-time.After(3 * time.Second):
+		rec.Notes = append(rec.Notes, "link did not return")
+	}
+	time.Sleep(time.Millisecond)
+	rec.Events = w.Events()
+	return rec
+}
